@@ -129,8 +129,10 @@ def run(ctx):
             and T.atom("checkpoint_file_path") in T.select(cbv, want_c, True)[2]
         ctx.decide(okd, "C12.default", sample.ident, loc_of(sample), "a cadence without a callback installs the default file callback for the given path; a given callback is kept",
                    f"the checkpoint callback in force is {T.show(cbv)[:200] if cbv else None}", disc="callback")
+        # exactly: (a callback is in force -- the given one, or the default just installed) and no cadence was given
+        accept_e = [mk_and([negate(("is", c_, T.NONE)), ("is", every_, T.NONE)]) for c_ in (cbv, cbk_) if c_ is not None]
         oke = evv is not None and evv[0] == "phi" and T.select(evv, evv[1], True) == T.ONE and T.select(evv, evv[1], False) == every_ \
-            and any(s_ == ("is", every_, T.NONE) for s_ in T.subterms(evv[1]))
+            and evv[1] in accept_e
         ctx.decide(oke, "C12.default", sample.ident, loc_of(sample), "a callback without a cadence checkpoints every iteration; a given cadence is kept",
                    f"the cadence in force is {T.show(evv)[:200] if evv else None}", disc="every")
 
@@ -320,6 +322,7 @@ MUTANTS = [
 ]
 MUTANTS += [
     M("cadence guard inverted", _B, "and checkpoint_every > 0\n", "and checkpoint_every <= 0\n", "C12.cad"),
+    M("requested cadence overwritten by one", _B, "if checkpoint_callback is not None and checkpoint_every is None:\n            checkpoint_every = 1", "if checkpoint_callback is not None or checkpoint_every is None:\n            checkpoint_every = 1", "C12.default"),
     M("given callback replaced by the default", _B, "if checkpoint_callback is None and checkpoint_every is not None:", "if checkpoint_every is not None:", "C12.default"),
     M("default cadence is every second iteration", _B, "checkpoint_every = 1\n", "checkpoint_every = 2\n", "C12.default"),
 ]
